@@ -309,6 +309,11 @@ def history(bib, rnd, depth, cid):
         out = apply(lib, op, U)
         ev = dict(op)
         ev["out"] = out
+        if rnd.random() < 0.3 and not (op["op"] == "add" and op.get("fail")) and not (op["op"] == "replace" and op.get("fail")):
+            # nobody looks at the library after this call: the next event that is observed shows the accumulated effect
+            ev["quiet"] = True
+            evs.append(ev)
+            continue
         ev["v"] = views(lib, names, model)
         if views(bystander, by_names, model) != by_views:
             ev["v"] = dict(ev["v"], blocks=ev["v"]["blocks"] + ["<another library changed: %s>" % views(bystander, by_names, model)["blocks"]])
